@@ -38,6 +38,26 @@ CLAIMED = {
  'C18': ('proof', 'Theorems nfa_union_spec, nfa_concat_spec, nfa_repetition_spec (valid result, epsilon preserved, language = union / concatenation / '
          'Kleene star) for disjoint operands with equal epsilon symbol and any fresh state; genFresh_fresh (the generated name is never an '
          'operand state, whatever the counter), nfa_union_history_indep. Operands with different epsilon symbols are covered by the tie only.', '6 C18'),
+ 'C04': ('proof', 'Theorems table_exact / minimizeTable_spec (table filling), quotient_spec (Moore refinement), hopcroft_spec / hopcroft_terminates '
+         '(Hopcroft with the stale waiting-set entries of the code, every pop order): each routine terminates within its fuel and returns a valid DFA '
+         'over the same alphabet whose states are exactly the Myhill-Nerode classes of ALL input states (DFA.IsNerode), hence same language, pairwise '
+         'distinguishable states, size = number of classes (which lies between the class counts of reachable and of all states).', '6 C04'),
+ 'C06': ('proof', 'Theorems regexpToNfa_spec (Thompson composition with generated names and the shared alphabet accumulator: valid NFA, language = '
+         'denoted language, all word lengths), toGnfa_spec, rip_spec, rip_label_lang, toRegexp_lang (state elimination in EVERY order yields an '
+         'expression denoting exactly L(D)).', '6 C06'),
+ 'C10': ('proof', 'Theorems pda_oneAccepting_spec, pda_emptyStack_spec / pda_emptyStackS_spec (with the drain state: same language and acceptance only '
+         'with the empty stack), pda_pushPopS_spec, tripleCfg_sound / tripleCfg_complete / tripleCfg_lang (Sipser Lemma 2.27 for the model of the '
+         'triple construction); the end-to-end composition pda_toCfg_lang is registered when proved.', '6 C10'),
+ 'C12': ('proof', 'Theorems compare_none_iff / compare_extra / compare_missing (language comparison: empty feedback iff equal; reported word genuine, '
+         'right polarity, minimal length, extra before missing) and chk_*_sound for every object-level checker model (language-from-words, '
+         'accept/reject lists, three products, complement, reverse, minimal, NFA->DFA, CYK table, derivations, Chomsky phases): verdict OK implies '
+         'the exercise criterion. Answer parsing is the library parser (C16/C17), tied in the harness.', '6 C12'),
+ 'C15': ('proof', 'Theorems dfa_simulate_valid, nfa_simulate_valid, nfa_simulate_some_iff (a genuine accepting run is produced, in finite time, exactly '
+         'for accepted words, every pop order; generic back-pointer search findPath_sound/none/total), pda_simulate_valid / _accepts / _none_iff, '
+         'cfg_derive_valid / cfg_derive_rejects (leftmost and rightmost derivations from the CYK table). PDA termination is the partial clause '
+         'pda_simulate_terminates_partial (finite epsilon-reachable universe).', '6 C15'),
+ 'C20': ('proof', 'Theorems isomorphic1_iff, isomorphic_iff (both routines terminate within their fuel and answer True exactly when the reachable parts '
+         'are isomorphic, every exploration order), iso_symm, iso_lang, iso_rename, isomorphic_agree.', '6 C20'),
  'C14': ('proof', 'Theorems product_valid/product_*_lang, complement_*, mapStates_*, noPrefix_*, makeTotal_*, freshState_fresh and the '
          'finite-language helper specs (lang*_spec, wordsOfLength_spec, wordsUpTo_spec). and reachableStates_zero/pos, removeUnreachable_spec, noExtend_spec, reverse_valid, reverse_lang.', '6 C14'),
 }
